@@ -212,11 +212,51 @@ def gen_registry_case(rng, maxlen):
     return dict(ops=ops, via_base=rng.random() < 0.3)
 
 
+def gen_nested_scope_case(rng, maxlen):
+    """suspensions of DIFFERENT widths that overlap without nesting properly: holds scoped to single observers (each of
+    them registered for the focus notification) and wider holds / disables are opened in any order, with posts in
+    between, and closed in any order - so that what a narrow hold queued is re-posted into a wider hold that is still
+    active, equal notifications destined for different observers meet in one queue, a disable outlives a hold, ..."""
+    FOCUS.clear()
+    n0, s0 = rng.choice(NAMES), rng.choice(SENDERS)
+    FOCUS[id(NAMES)] = n0
+    FOCUS[id(SENDERS)] = s0
+    ops = []
+    obs = rng.sample(OBSERVERS, rng.randint(2, 3))
+    for o in obs + ([rng.choice(OBSERVERS)] if rng.random() < 0.4 else []):
+        n, sd = rng.choice([(None, None), (n0, None), (None, s0), (n0, s0), (n0, s0)])
+        if not any(x[0] == "add" and x[1] == o and x[3] == n and x[4] == sd for x in ops):
+            ops.append(["add", o, rng.choice(METHS), n, sd, _o(rng, IDENTS, 0.7)])
+    scopes = [("hold", [rng.choice([None, n0]), rng.choice([None, s0]), o]) for o in obs]
+    for _ in range(rng.randint(1, 2)):
+        scopes.append((rng.choice(["hold", "hold", "hold", "disable"]),
+                       [rng.choice([None, n0]), rng.choice([None, s0]), None]))
+    if rng.random() < 0.25:
+        scopes.append(rng.choice(scopes))               # one of them requested twice
+    rng.shuffle(scopes)
+
+    def posts(p):
+        while rng.random() < p:
+            ops.append(["post", n0 if rng.random() < 0.9 else rng.choice(NAMES),
+                        s0 if rng.random() < 0.9 else rng.choice(SENDERS), rng.randrange(2)])
+    for kind, sc in scopes:
+        ops.append([kind] + sc + ([None] if kind == "hold" else []))
+        posts(0.6)
+    rng.shuffle(scopes)
+    for kind, sc in scopes:
+        ops.append(["release" if kind == "hold" else "enable"] + sc)
+        posts(0.4)
+    ops.append(["post", n0, s0, rng.randrange(2)])
+    return dict(ops=ops, via_base=rng.random() < 0.3)
+
+
 def generate(rng, tier):
     n, maxlen = (1500, 25) if tier == "quick" else (20000, 60)
     for i in range(n):
         if i % 8 == 5:
             yield gen_registry_case(rng, maxlen)
+        elif i % 8 == 3:
+            yield gen_nested_scope_case(rng, maxlen)
         else:
             yield gen_bracket_case(rng, maxlen) if i % 2 else gen_case(rng, maxlen)
 
